@@ -127,7 +127,7 @@ def work(tier, seed):
     return units
 
 
-def check(tg, lay, start, pdtype, hist, seed, zero_at=None):
+def check(tg, lay, start, pdtype, hist, seed, zero_at=None, lr_sched=False):
     """one history: Shampoo-with-grafting vs torch twin (and vs Shampoo-without-grafting after start)."""
     import torch
 
@@ -149,6 +149,11 @@ def check(tg, lay, start, pdtype, hist, seed, zero_at=None):
     pscale = {}
     diverged = False
     for t, mask in enumerate(hist):
+        if lr_sched and t >= 1:
+            new_lr = tg["lr"] * (0.5 ** t)  # a scheduler writing param_groups[...]["lr"] between steps
+            for o in [opt, twin] + ([opt0] if norm_part else []):
+                for g in o.param_groups:
+                    g["lr"] = new_lr
         seq.set_grads(params, cfg, t, mask)
         if zero_at is not None and zero_at[1] == t and params[zero_at[0]].grad is not None:
             params[zero_at[0]].grad.zero_()  # present but all-zero gradient (e.g. zero_grad(set_to_none=False) on an unused layer)
@@ -256,6 +261,12 @@ def run_unit(unit):
                         if msgs:
                             res["violations"].append({"case": {"target": tg, "layout": lay, "start": start, "pdtype": pdtype, "hist": hist, "zero_at": list(za)}, "msg": f"{msgs[0]} [zero gradient of parameter 1 at step {za[1]}; target {tg} layout {lay}]", "kind": "zero" + msgs[0].split(":")[-1][:25]})
                             msgs = []
+                    if not msgs and tg.get("momentum", 0) and all(any(m) for m in hist):
+                        msgs, _ = check(tg, lay, start, pdtype, hist, 0, lr_sched=True)
+                        res["stats"]["lr_schedule_variants"] = res["stats"].get("lr_schedule_variants", 0) + 1
+                        if msgs:
+                            res["violations"].append({"case": {"target": tg, "layout": lay, "start": start, "pdtype": pdtype, "hist": hist, "lr_sched": True}, "msg": f"{msgs[0]} [learning rate halved after every step; target {tg} layout {lay}]", "kind": "lr" + msgs[0].split(":")[-1][:25]})
+                            msgs = []
                     res["evals"] += 1
                     res["transitions"] += len(digests)
                     res["states"].update(digests)
@@ -280,4 +291,4 @@ def run_unit(unit):
 
 def replay(case):
     za = case.get("zero_at")
-    return check(case["target"], case["layout"], case["start"], case["pdtype"], case["hist"], 0, zero_at=tuple(za) if za else None)[0]
+    return check(case["target"], case["layout"], case["start"], case["pdtype"], case["hist"], 0, zero_at=tuple(za) if za else None, lr_sched=bool(case.get("lr_sched")))[0]
